@@ -51,12 +51,14 @@ package profile
 //@   ensures [C01:fields] result.Negated == negated && result.Body == snoc(snoc(snoc(empty(Seq_Any), ifRule), thenRule), elseRule)
 
 //@ func (r AndRule) Negate() Rule
+//@   verify [C07]
 //@   requires [C01:operands] allOk(r.Body)
 //@   ensures [C01:de-morgan] is(result, profile.OrRule) && !ruleNeg(result) && anyHold(ruleBody(result)) == !allHold(r.Body) && allOk(ruleBody(result)) && len(ruleBody(result)) == len(r.Body)
 //@   loop 1 /* for i, br := range r.Body */
 //@     invariant [C01] len(negatedBody) == len(r.Body) && anyHold(take(negatedBody, #i)) == !allHold(take(r.Body, #i)) && allOk(take(negatedBody, #i))
 
 //@ func (r OrRule) Negate() Rule
+//@   verify [C07]
 //@   requires [C01:operands] allOk(r.Body)
 //@   ensures [C01:de-morgan] is(result, profile.AndRule) && !ruleNeg(result) && allHold(ruleBody(result)) == !anyHold(r.Body) && allOk(ruleBody(result)) && len(ruleBody(result)) == len(r.Body)
 //@   loop 1 /* for i, br := range r.Body */
